@@ -95,6 +95,13 @@ def run(ctx):
     if quick:
         obj_jobs = rnd.sample(obj_jobs, 140)
     jobs += obj_jobs
+    # thorough: pairs of faults (two independent injections in one run)
+    if not quick:
+        singles = [j for j in jobs if j[5] is None]
+        for _ in range(500):
+            a, b = rnd.sample(singles, 2)
+            if a[0] == b[0] and a[1] == b[1] and a[2] != b[2]:
+                jobs.append((a[0], a[1], a[2], a[3], a[4], "PAIR:%s:%s:%d" % (b[2], b[3], b[4])))
     # second configuration: --ownership, so that the tolerated fchown failure is exercised together with what must follow it
     sc_own = scenario(extra=["--ownership"], name="all-ops-ownership")
     for drv in ("parfile", "parblock"):
@@ -118,6 +125,9 @@ def run(ctx):
         rid = rid.replace("/", "_").replace(":", "")
         root_guess = os.path.join(scratch(), "ns-%s" % rid)
         st_ = {"trace": TRACE, "inject": [inj_spec]}
+        if plan and plan.startswith("PAIR:"):
+            _, s2, e2, w2 = plan.split(":")
+            st_["inject"].append("%s:error=%s:when=%s" % (s2, e2, w2))
         if only:
             st_["extra"] = ["-P", os.path.join(root_guess, only)]
         o = nsplane.run_one(binary, the_sc, drv, rid, workers=w, keep=True, timeout=90, env=env, strace=st_)
